@@ -108,7 +108,20 @@ func dstr(k zygo.Sexp) string {
 
 // how the JSON encoder spells a key as an object key: taken from the real encoder (a probe hash
 // holding only that key), because the spelling of keys is not this property's subject
-func djson(env *zygo.Zlisp, k zygo.Sexp) string {
+func djson(env *zygo.Zlisp, k zygo.Sexp) (res string) {
+	// a key of the shape [[a]] is never stored as such (HashSet stores [a]); its probe hash
+	// cannot be encoded at all (finding nested-one-element-array-key) and its spelling is never needed
+	defer func() {
+		if r := recover(); r != nil {
+			res = "?unencodable"
+		}
+	}()
+	if a, isArr := k.(*zygo.SexpArray); isArr && len(a.Val) == 1 {
+		// a probe would store the element, not the array: [a] can only be a stored key through
+		// [[a]] (finding nested-one-element-array-key); spell it as the encoder spells other arrays
+		by, _ := json.Marshal(k.SexpString(nil))
+		return string(by)
+	}
 	h, err := zygo.MakeHash(nil, "hash", env)
 	if err != nil {
 		panic(err)
@@ -177,6 +190,9 @@ var univA = []kspec{sym("a"), sym("b"), str("s"), str("t"), in(1), in(97), ch('a
 // one-element arrays of an int/char pair, the empty array, an int equal to a string's fnv code
 var univB = []kspec{arr(in(1), in(97)), arr(in(1), ch('a')), in(97), ch('a'), arr(in(97)), arr(ch('a')), str("s"), fnvcode("s"), arr()}
 
+// universe C = nested one-element arrays: [[1]] is stored as [1] (and then looked up as 1)
+var univC = []kspec{in(1), arr(in(1)), arr(arr(in(1))), arr(arr(in(1), in(2))), arr(in(1), in(2))}
+
 // ---------------------------------------------------------------- operations
 
 type op struct {
@@ -211,7 +227,7 @@ const (
 type driver interface {
 	reset()                                         // h = (hash)
 	call(name string, args ...arg) (zygo.Sexp, int) // (name h args...)
-	loopValues() (zygo.Sexp, int)                   // values seen by the range macro
+	loopValues() (zygo.Sexp, int)                   // key, value, key, value .. seen by the range macro
 }
 
 // an argument is a universe key, an integer, or the default marker
@@ -333,7 +349,7 @@ func (d *scriptDriver) loopValues() (zygo.Sexp, int) {
 	if _, st := d.eval("(def acc [])"); st != stOK {
 		return nil, stErr
 	}
-	if _, st := d.eval("(range lk lv h (set acc (append acc lv)))"); st != stOK {
+	if _, st := d.eval("(range lk lv h (set acc (append (append acc lk) lv)))"); st != stOK {
 		return nil, st
 	}
 	return d.eval("acc")
@@ -474,12 +490,12 @@ func observe(d driver, u *universe, nops int, script bool) string {
 	if script {
 		b.WriteString(";lm=")
 		v, st := d.loopValues()
-		if a, ok := v.(*zygo.SexpArray); ok && st == stOK {
-			for i, x := range a.Val {
+		if a, ok := v.(*zygo.SexpArray); ok && st == stOK && len(a.Val)%2 == 0 {
+			for i := 0; i+1 < len(a.Val); i += 2 {
 				if i > 0 {
-					b.WriteString(",")
+					b.WriteString("|")
 				}
-				b.WriteString(val(x))
+				b.WriteString(shape(a.Val[i]) + "=" + val(a.Val[i+1]))
 			}
 		} else {
 			b.WriteString(outv(v, st))
@@ -526,7 +542,7 @@ type replayFile struct {
 func main() {
 	a := lib.ParseArgs()
 	out := lib.NewOut(a.Out)
-	out.Rule = "universe A (9 keys: symbols a b, strings s t, ints 1 97, char 'a' (= 97), array [1], int = symbol number of a) and universe B (9 keys: arrays [1 97] [1 'a'] [97] ['a'] [], 97, 'a', string s, int = fnv code of s): ALL histories of hset/hdel (fresh value per step) up to the length bound, each observed after its last step (so after every step of every history); random long histories observed after every step; a case is non-trivial when the history has at least 2 operations; distinct = distinct (mode, universe, history) inputs"
+	out.Rule = "universe A (9 keys: symbols a b, strings s t, ints 1 97, char 'a' (= 97), array [1], int = symbol number of a), universe B (9 keys: arrays [1 97] [1 'a'] [97] ['a'] [], 97, 'a', string s, int = fnv code of s) and universe C (5 keys: 1 [1] [[1]] [[1 2]] [1 2]): ALL histories of hset/hdel (fresh value per step) up to the length bound, each observed after its last step (so after every step of every history); random long histories observed after every step; a case is non-trivial when the history has at least 2 operations; distinct = distinct (mode, universe, history) inputs"
 	env := zygo.NewZlisp()
 	env.StandardSetup()
 	dflt := &zygo.SexpStr{S: "DFLT"}
@@ -541,7 +557,8 @@ func main() {
 	}
 	uA := mkU("A", univA)
 	uB := mkU("B", univB)
-	unis := map[string]*universe{"A": uA, "B": uB}
+	uC := mkU("C", univC)
+	unis := map[string]*universe{"A": uA, "B": uB, "C": uC}
 
 	var cur *universe
 	use := func(u *universe) {
@@ -607,10 +624,10 @@ func main() {
 	}
 
 	// bounds per tier
-	exA, exB, exS := 4, 3, 2
+	exA, exB, exC, exS := 4, 3, 3, 2
 	nRand, randLen := 60, 40
 	if a.Tier == "thorough" {
-		exA, exB, exS = 5, 4, 3
+		exA, exB, exC, exS = 5, 4, 5, 3
 		nRand, randLen = 600, 80
 	}
 	var enum func(mode string, prefix []op, depth int)
@@ -637,6 +654,9 @@ func main() {
 	use(uB)
 	all("A", exB)
 	all("S", exS-1)
+	use(uC)
+	all("A", exC)
+	all("S", exS)
 
 	// random long histories, observed after every step; deletes are biased to live keys
 	rng := lib.NewRng(a.Seed)
@@ -644,6 +664,9 @@ func main() {
 		u := uA
 		if n%4 == 3 {
 			u = uB
+		}
+		if n%10 == 9 {
+			u = uC
 		}
 		if cur != u {
 			use(u)
@@ -667,6 +690,7 @@ func main() {
 	}
 	out.Extra["exhaustive_length_universe_A_applied"] = exA
 	out.Extra["exhaustive_length_universe_B_applied"] = exB
+	out.Extra["exhaustive_length_universe_C_applied"] = exC
 	out.Extra["exhaustive_length_script"] = exS
 	out.Extra["random_histories"] = nRand
 	out.Extra["random_max_length"] = randLen + 4
